@@ -159,10 +159,11 @@ def normals_use(exts, sd_arg=None, affine=None):
     first = exts[0]
     aff = first.affine if affine is None else affine
     sd = first.slice_dim if sd_arg is None else sd_arg
-    rn = None if sd is None else np.array(aff[sd][:3])
+    # slice direction = world direction of the slice axis = column `slice_dim` of the affine
+    rn = None if sd is None else np.array(aff)[:3, sd]
     out = []
     for e in exts:
-        on = e.slice_normal
+        on = None if e.slice_dim is None else np.array(e.affine)[:3, e.slice_dim]
         out.append(bool(rn is not None and on is not None and np.allclose(rn, on)))
     return out
 
@@ -200,6 +201,52 @@ def run_merge(case):
     if status != 'ok':
         out['error'] = err
     return out
+
+
+def scribble(ext):
+    """change, in place, every mutable value an extension holds (elements of value lists that are
+    lists or dicts, constant values that are lists or dicts); returns how many were changed"""
+    n = 0
+    content = ext._content
+    for base in ('global', 'time', 'vector'):
+        for cls in ('const', 'samples', 'slices'):
+            d = (content.get(base) or {}).get(cls)
+            if not d:
+                continue
+            for k, v in d.items():
+                vals = [v] if cls == 'const' else (v if isinstance(v, list) else [v])
+                for x in vals:
+                    if isinstance(x, list):
+                        x.append('__SCRIBBLE__')
+                        n += 1
+                    elif isinstance(x, dict):
+                        x['__SCRIBBLE__'] = 1
+                        n += 1
+    return n
+
+
+def _snap(e):
+    return json.dumps(e._content, default=str, sort_keys=False)
+
+
+def alias_probe(inputs, result):
+    """C13: a result shares nothing mutable with an input - editing a value inside the result leaves
+    every input's JSON as it was, and editing a value inside an input leaves the result's JSON as it
+    was.  `inputs` and `result` are fresh objects used for nothing else afterwards."""
+    fails = []
+    before = [_snap(e) for e in inputs]
+    n = scribble(result)
+    after = [_snap(e) for e in inputs]
+    for j, (b, a) in enumerate(zip(before, after)):
+        if b != a:
+            fails.append('editing a value (list / dict) inside the result changed input %d' % j)
+            return fails
+    rb = _snap(result)
+    for e in inputs:
+        scribble(e)
+    if _snap(result) != rb:
+        fails.append('editing a value (list / dict) inside an input changed the result produced earlier')
+    return fails
 
 
 def _valid(e):
